@@ -352,3 +352,33 @@ def closure_call_mapping(facts, cb):
         if tup[0] == "tuple":
             return {2 + i: e for i, e in enumerate(tup[1])}
     return None
+
+
+def pass_anchors(facts, body, pred, depth=2):
+    """for every call site satisfying pred that `body` reaches (itself, closures, private helpers): the block of `body` a path must
+    cross to get there - the outermost enclosing loop header if the site sits in a loop of `body`, else the site's own block.
+    Returns {anchor block: ISite}."""
+    from .cfg import cfg_of
+    cfg = cfg_of(body)
+    hdrs = sorted(cfg.loop_headers())
+    out = {}
+    for s in inlined_sites(facts, body, pred, depth=depth):
+        a = s.outer_block
+        outer = [h for h in hdrs if cfg.dominates(h, a) and cfg.reaches(a, h)]
+        if outer:
+            top = [h for h in outer if all(cfg.dominates(h, h2) for h2 in outer)]
+            a = top[0] if top else outer[0]
+        out.setdefault(a, s)
+    return out
+
+
+def bypassing_returns(body, anchors, variant="Ok"):
+    """(anchor, return block) pairs: a return of the given variant reachable from the entry without crossing the anchor"""
+    from .cfg import cfg_of
+    cfg = cfg_of(body)
+    oks = [eb for eb, st in assigns_of_return(body, variant)]
+    # ... and returns that hand on the result of a call (`return helper(..)`), which may be a success as well
+    for bi, t in body.calls():
+        if t.dest is not None and t.dest.local == 0 and not t.dest.proj and t.callee is not None and t.callee.name not in ("from_residual", "from_error"):
+            oks.append(bi)
+    return [(a, o) for a in sorted(anchors) for o in oks if o != a and a != 0 and cfg.reaches(0, o, avoid=(a,))], oks
